@@ -51,7 +51,8 @@ def plan(tier, seed):
 def floors(tier):
     return {'evaluations': 20000, 'distinct_nontrivial': 10000, 'comment_markers_checked': 20000,
             'formula_markers_checked': 20000, 'discard_markers_checked': 5000, 'histkeys:position': 15,
-            'histkeys:math_env': 15, 'histkeys:option_cell': 24, 'k2_witness_checked': 1}
+            'histkeys:math_env': 15, 'histkeys:option_cell': 24, 'k2_witness_checked': 1,
+            'formulas_with_escaped_active_characters': 500}
 
 
 def setup(rec):
@@ -155,6 +156,13 @@ class Gen(object):
             body.append('& z \\\\ w')
         if rng.random() < 0.15:
             body.append('u \\\\' + self.comment(dict(fctx, position='comment-in-formula')) + ' v')
+        if rng.random() < 0.3:
+            # escaped active characters: macro tokens whose *name* is a delimiter character
+            body.append(rng.choice(['\\$', '\\%', '\\#', '\\{z\\}', '\\$ \\$', '\\&']))
+            self.escaped_in_formula = getattr(self, 'escaped_in_formula', 0) + 1
+        if rng.random() < 0.1:
+            # an (unmarked) comment whose whole text is the closing delimiter
+            body.append('%' + c + '\n')
         rng.shuffle(body)
         if body[-1].startswith('%'):
             body.append('q')            # a comment must not swallow the closing delimiter
@@ -300,6 +308,7 @@ def run_shard(desc, rec):
     for i in range(desc['count']):
         g = Gen(rng)
         doc = g.document()
+        rec.monitor('formulas_with_escaped_active_characters', getattr(g, 'escaped_in_formula', 0))
         kinds = set(m['kind'] for m in g.markers)
         for _ in range(desc['optsper']):
             mm, kc, sp, ft = combos[ci % len(combos)]
